@@ -203,7 +203,16 @@ def layout(draw, max_size=60, allow_default=False):
         for k in draw(st.lists(st.sampled_from('cdhi'), min_size=2, max_size=4, unique=True)):
             tables[k] = {'shape': 'default'}
         share = None
-    return {'zero_mode': draw(st.booleans()), 'share': share, 'tables': tables}
+    out = {'zero_mode': draw(st.booleans()), 'share': share, 'tables': tables}
+    same = draw(st.sampled_from([None, None, None, None, 'bits', 'regs', 'both']))
+    if same and share is None and all(tables[k]['shape'] != 'default' for k in 'cdhi'):
+        # two separate tables initialised from one and the same list object of the application
+        if same in ('bits', 'both') and tables['c']['shape'] == 'seq':
+            tables['d'] = dict(tables['c'])
+        if same in ('regs', 'both') and tables['h']['shape'] == 'seq':
+            tables['i'] = dict(tables['h'])
+        out['same_initial'] = same
+    return out
 
 
 def runs(cells):
